@@ -21,8 +21,8 @@ CHOOSER = None
 
 
 def force(site, S):
-    if CHOOSER is None:
-        return None
+    if CHOOSER is None or not isinstance(S, set):
+        return None          # only the pop of a SET can be forced; any other worklist is left alone
     x = CHOOSER(site, S)
     if x is None:
         return None
